@@ -74,11 +74,14 @@ Definition apply_choice (s : st) (ch : bool * bool) : st :=
   if goleft then mkSt (s_l s - 1) (s_r s) (s_acc s + lp s) amb
   else mkSt (s_l s) (s_r s + 1) (s_acc s + rp s) amb.
 Definition has_mass (s : st) : bool := Qltb 0 (lp s) || Qltb 0 (rp s).
-(* (may stop, may go on) at the loop guard *)
-Definition guard_choices (c : Q) (s : st) : bool * bool :=
+(* (may stop, may go on) at the loop guard; [sc] is a positive scale factor applied to the
+   accumulated value (the algorithm is invariant under scaling all masses and c alike; the
+   comparator uses it to keep every number an integer) *)
+Definition guard_choices (sc c : Q) (s : st) : bool * bool :=
   let m := has_mass s in
-  let lt := Qltb (s_acc s) c in
-  let nr := near (s_acc s) c in
+  let a := sc * s_acc s in
+  let lt := Qltb a c in
+  let nr := near a c in
   (negb m || negb lt || nr, m && (lt || nr)).
 Definition same_key (a b : st) : bool :=
   (s_l a =? s_l b)%Z && (s_r a =? s_r b)%Z && Bool.eqb (s_amb a) (s_amb b).
@@ -89,28 +92,44 @@ Fixpoint insert_st (s : st) (l : list st) : list st :=
   end.
 Definition init_choices (x : Z) : list st :=
   if near (P (x + 1)) (P x) then [mkSt x (x + 1) (P x) true; mkSt x (x + 1) (P x) false] else [st_init x].
-(* breadth-first over interval widths; [outs] collects the admissible final states *)
-Fixpoint explore (c : Q) (fuel : nat) (layer outs : list st) : option (list st) :=
+(* the transitions do not depend on c: layer k holds the states of interval width k+1 that some
+   admissible run can reach, each with its admissible successors *)
+Fixpoint graph (fuel : nat) (layer : list st) : option (list (list (st * list st))) :=
   match layer with
-  | [] => Some outs
+  | [] => Some []
   | _ =>
       match fuel with
       | O => None
       | S f =>
-          let '(outs', next) :=
-            fold_left (fun (acc : list st * list st) s =>
-                         let '(o, nx) := acc in
-                         let '(stop, go) := guard_choices c s in
-                         ((if stop then insert_st s o else o),
-                          (if go then fold_left (fun a ch => insert_st (apply_choice s ch) a) (step_choices s) nx else nx)))
-                      layer (outs, []) in
-          explore c f next outs'
+          let nodes := map (fun s => (s, if has_mass s then map (apply_choice s) (step_choices s) else [])) layer in
+          let next := fold_left (fun a nd => fold_left (fun a t => insert_st t a) (snd nd) a) nodes [] in
+          option_map (cons nodes) (graph f next)
       end
   end.
-Definition qci_small_set (n : Z) (xs : list Z) (c : Q) : option (list qres) :=
-  match explore c (Z.to_nat (n + 3)) (flat_map init_choices xs) [] with
-  | Some l => Some (map (fun s => clampR n (s_l s) (s_r s) (s_acc s) (s_amb s)) l)
-  | None => None
+Definition qci_graph (n : Z) (xs : list Z) : option (list (list (st * list st))) :=
+  graph (Z.to_nat (n + 3)) (fold_left (fun a x => fold_left (fun a t => insert_st t a) (init_choices x) a) xs []).
+(* for a given c: follow the layers from the states reached so far; [outs] collects the states
+   at which the loop may stop *)
+Fixpoint walk (sc c : Q) (g : list (list (st * list st))) (reach outs : list st) : list st :=
+  match g with
+  | [] => outs
+  | nodes :: g' =>
+      let '(outs', next) :=
+        fold_left (fun (acc : list st * list st) (nd : st * list st) =>
+                     let '(o, nx) := acc in
+                     let '(s, succs) := nd in
+                     if existsb (same_key s) reach then
+                       let '(stop, go) := guard_choices sc c s in
+                       ((if stop then insert_st s o else o),
+                        (if go then fold_left (fun a t => insert_st t a) succs nx else nx))
+                     else acc)
+                  nodes (outs, []) in
+      match next with [] => outs' | _ => walk sc c g' next outs' end
+  end.
+Definition qci_small_set (n : Z) (g : list (list (st * list st))) (sc c : Q) : list qres :=
+  match g with
+  | [] => []
+  | nodes :: _ => map (fun s => clampR n (s_l s) (s_r s) (s_acc s) (s_amb s)) (walk sc c g (map fst nodes) [])
   end.
 End Small.
 
